@@ -180,6 +180,11 @@ structure Hit where
   /-- for a pointer: its reader selections and the scope they are read in -/
   pointerSel : List RNode
   env : Option Env
+  /-- the trail of the innermost client field (Resolver node) the selection is read in, and the path
+  since then with the arguments AS WRITTEN in that field's reader (no substitution): the key under
+  which that field's own reader numbers the selection -/
+  scope : Str := []
+  rawPath : List PathEl := []
 deriving Inhabited
 
 def atIdx (l : List Selected) (i : Nat) : Selected :=
@@ -192,15 +197,16 @@ def lastLevel (levels : List (List NNode)) : List NNode := levels.getLastD []
 mutual
 /-- `readData` over a reader AST, collecting refetchable selections -/
 def walkNodes (g : Graph) : Nat → List RNode → List Selected → Option Env → Str → List PathEl →
-    Option (List NNode) → List Hit
-  | 0, _, _, _, _, _, _ => []
-  | _, [], _, _, _, _, _ => []
-  | fuel + 1, node :: rest, nested, env, trail, path, ctx =>
-    walkNode g fuel node nested env trail path ctx ++ walkNodes g fuel rest nested env trail path ctx
+    Option (List NNode) → Str → List PathEl → List Hit
+  | 0, _, _, _, _, _, _, _, _ => []
+  | _, [], _, _, _, _, _, _, _ => []
+  | fuel + 1, node :: rest, nested, env, trail, path, ctx, scope, raw =>
+    walkNode g fuel node nested env trail path ctx scope raw ++
+      walkNodes g fuel rest nested env trail path ctx scope raw
 def walkNode (g : Graph) : Nat → RNode → List Selected → Option Env → Str → List PathEl →
-    Option (List NNode) → List Hit
-  | 0, _, _, _, _, _, _ => []
-  | fuel + 1, node, nested, env, trail, path, ctx =>
+    Option (List NNode) → Str → List PathEl → List Hit
+  | 0, _, _, _, _, _, _, _, _ => []
+  | fuel + 1, node, nested, env, trail, path, ctx, scope, raw =>
     match node with
     | .scalar .. | .link _ => []
     | .linked name alias args cond idx sel =>
@@ -213,24 +219,27 @@ def walkNode (g : Graph) : Nat → RNode → List Selected → Option Env → St
           match chosen with
           | .artifact rel => (g.refetch? rel).map fun r => lastLevel (unwrapLevels 8 r.op.norm)
           | _ => none
-        ⟨t, .pointer, name, path, ctx, chosen, nested, sel, env⟩ ::
-          walkNodes g fuel sel nested env t [] ctx'
+        ⟨t, .pointer, name, path, ctx, chosen, nested, sel, env, scope, raw⟩ ::
+          walkNodes g fuel sel nested env t [] ctx' scope (raw ++ [.field name args])
       | none =>
         match cond with
         | some condRel =>
           -- `asT`: same record, refined to the condition artifact's type
           let ty := ((g.reader? condRel).bind (·.conditionType)).getD (name.drop 2)
-          walkNodes g fuel sel nested env t (path ++ [.frag ty]) ctx
-        | none => walkNodes g fuel sel nested env t (path ++ [.field name (substArgs env args)]) ctx
+          walkNodes g fuel sel nested env t (path ++ [.frag ty]) ctx scope (raw ++ [.frag ty])
+        | none =>
+          walkNodes g fuel sel nested env t (path ++ [.field name (substArgs env args)]) ctx scope
+            (raw ++ [.field name args])
     | .resolver alias args reader used =>
       match g.reader? reader with
       | none => []
       | some r =>
         walkNodes g fuel r.ast (used.map (atIdx nested)) (childEnv env args) (trail ++ [47] ++ alias) path ctx
+          (trail ++ [47] ++ alias) []
     | .imperative alias name _ idx =>
-      [⟨trail ++ [47] ++ alias, .imperative, name, path, ctx, atIdx nested idx, nested, [], env⟩]
+      [⟨trail ++ [47] ++ alias, .imperative, name, path, ctx, atIdx nested idx, nested, [], env, scope, raw⟩]
     | .loadable alias name _ _ _ entry =>
-      [⟨trail ++ [47] ++ alias, .loadable, name, path, ctx, .entrypoint entry, nested, [], env⟩]
+      [⟨trail ++ [47] ++ alias, .loadable, name, path, ctx, .entrypoint entry, nested, [], env, scope, raw⟩]
 end
 
 def walkFuel : Nat := 400
@@ -249,7 +258,7 @@ def walkEntry (g : Graph) (e : Entry) : List Hit :=
     -- an entrypoint of a non-root type (generated for a loadable field) is read at the object
     -- fetched through the wrapping `node(id: $id) { ... on T {`
     let ctx := if e.atRoot then e.op.norm else lastLevel (unwrapLevels 8 e.op.norm)
-    walkNodes g walkFuel r.ast (e.nested.map fun q => Selected.artifact q.1) none [] [] (some ctx)
+    walkNodes g walkFuel r.ast (e.nested.map fun q => Selected.artifact q.1) none [] [] (some ctx) [] []
 
 /-! ### the oracle -/
 
@@ -398,8 +407,33 @@ def hitVerdict (g : Graph) (e : Entry) (h : Hit) : Option String :=
           else if !nameOk then some "refetch-wrong-field"
           else some "refetch-wrong-selection"
 
+def pathElEq : PathEl → PathEl → Bool
+  | .field n a, .field m b => n == m && argsEq a b
+  | .frag s, .frag t => s == t
+  | _, _ => false
+
+def pathEq : List PathEl → List PathEl → Bool
+  | [], [] => true
+  | x :: xs, y :: ys => pathElEq x y && pathEq xs ys
+  | _, _ => false
+
+/-- do two refetchable selections of ONE client field stand at different keys in the field's own
+reader but at the same key once the arguments passed to the field are substituted?  (then the
+parent's map has one entry where the field's reader counts two) -/
+def keysMerge (hits : List Hit) (h : Hit) : Bool :=
+  hits.any fun o =>
+    o.scope == h.scope && !o.scope.isEmpty && o.name == h.name && o.kind == h.kind &&
+    pathEq o.path h.path && !pathEq o.rawPath h.rawPath
+
+/-- narrow the verdict of a hit: an index that is wrong or out of range because keys merged -/
+def refineVerdict (hits : List Hit) (h : Hit) (v : String) : String :=
+  if (v == "refetch-wrong-selection" || v == "refetch-index-out-of-range" || v == "refetch-order-after-substitution")
+      && hits.any (keysMerge hits ·) && !h.scope.isEmpty
+  then "refetch-keys-merge-after-substitution" else v
+
 def entryVerdict (g : Graph) (e : Entry) : String :=
-  match (walkEntry g e).findSome? (hitVerdict g e) with
+  let hits := walkEntry g e
+  match hits.findSome? (fun h => (hitVerdict g e h).map (refineVerdict hits h)) with
   | some why => "bad:" ++ why
   | none => "ok"
 
@@ -446,9 +480,16 @@ def indexOf? (x : Nat) : List Nat → Option Nat
 /-- `refetchQueryIndex` the child's reader AST holds for its selection with path `σ` -/
 def childIndex (childPaths : List Nat) (σ : Nat) : Option Nat := indexOf? σ (sortKeys childPaths)
 
-/-- `usedRefetchQueries` of the parent's Resolver node -/
+/-- adjacent duplicates removed (a sorted list becomes duplicate free) -/
+def dedupAdjacent : List Nat → List Nat
+  | [] => []
+  | [x] => [x]
+  | x :: y :: rest => if x == y then dedupAdjacent (y :: rest) else x :: dedupAdjacent (y :: rest)
+
+/-- `usedRefetchQueries` of the parent's Resolver node: the child's paths are transformed, collected
+in a SET (`refetched_paths_with_path` returns a `HashSet`), sorted, and looked up in the parent's map -/
 def usedRefetchQueries (parentPaths : List Nat) (f : Nat → Nat) (childPaths : List Nat) : List (Option Nat) :=
-  (sortKeys (childPaths.map f)).map fun k => indexOf? k (sortKeys parentPaths)
+  (dedupAdjacent (sortKeys (childPaths.map f))).map fun k => indexOf? k (sortKeys parentPaths)
 
 /-- the key of the parent's refetch query that the runtime ends up with for the child's selection `σ` -/
 def selectedKey (parentPaths : List Nat) (f : Nat → Nat) (childPaths : List Nat) (σ : Nat) : Option Nat :=
